@@ -513,6 +513,12 @@ pub(crate) fn fatal(rep: &Report) {
 const IMPLICIT_DESC: &str = "unannounced OS-level block";
 static SIM_GEN: AtomicU64 = AtomicU64::new(0);
 static IMPLICIT: AtomicU64 = AtomicU64::new(0);
+static STUCK_CALLS: AtomicU64 = AtomicU64::new(0);
+
+/// How often an announced call did not come back although its wake condition held.
+pub fn stuck_calls() -> u64 {
+    STUCK_CALLS.load(Ordering::Relaxed)
+}
 static WATCHED: Mutex<Option<Arc<Sim>>> = Mutex::new(None);
 static MONITOR: std::sync::Once = std::sync::Once::new();
 
@@ -580,8 +586,12 @@ fn start_monitor() {
                 let mut st = sim.st.lock().unwrap();
                 let cur = st.current;
                 let key = (st.sim_gen, st.steps, cur);
-                let running = !st.finished && !st.baton_free && cur < st.tasks.len() && matches!(st.tasks[cur].status, Status::Running) && st.tasks[cur].tid != 0;
-                if !running || key != last {
+                // the baton holder is running - or it is a detached task that was chosen because
+                // its wake condition holds and everybody waits for its real call to come back
+                let holds = !st.finished && !st.baton_free && cur < st.tasks.len() && st.tasks[cur].tid != 0;
+                let running = holds && matches!(st.tasks[cur].status, Status::Running);
+                let chosen = holds && matches!(st.tasks[cur].status, Status::Detached { .. }) && st.tasks[cur].info & CHOSEN_BIT != 0;
+                if !(running || chosen) || key != last {
                     last = key;
                     stalls = 0;
                     continue;
@@ -595,6 +605,22 @@ fn start_monitor() {
                     continue;
                 }
                 stalls = 0;
+                if chosen {
+                    // the model said the call can return, the call does not: take the choice back
+                    // (the task stays detached, with no wake condition: it counts again when it
+                    // really comes back) and let the others go on - or find that nobody can
+                    let desc = match &st.tasks[cur].status {
+                        Status::Detached { desc, .. } => *desc,
+                        _ => IMPLICIT_DESC,
+                    };
+                    st.tasks[cur].status = Status::Detached { desc, cond: Box::new(|| false), returned: false };
+                    st.tasks[cur].info &= !CHOSEN_BIT;
+                    st.tasks[cur].ret_seen = false;
+                    *st.tasks[cur].slot.go.lock().unwrap() = false;
+                    STUCK_CALLS.fetch_add(1, Ordering::Relaxed);
+                    sim.switch(cur, st, true);
+                    continue;
+                }
                 st.tasks[cur].status = Status::Detached { desc: IMPLICIT_DESC, cond: Box::new(|| false), returned: false };
                 st.tasks[cur].ret_seen = false;
                 st.implicit_out += 1;
